@@ -63,7 +63,7 @@ def run(chk, prog):
     st = arms.get("Static")
     keys = ("call", ("attr", ("attr", INNER, "mapping"), "keys"), (), ())
     a = mk_elem(keys)
-    want = ("call", ("attr", L(("call", ("attr", INNER, "get_submap"), (a,), ()), ("call", SEL, (a,), ())), "extend"), (a,), ())
+    want = ("call", ("attr", L(("call", INNER, (a,), ()), ("call", SEL, (a,), ())), "extend"), (a,), ())
     okst = is_t(st, "bin") and st[1] == "|" and is_call(st[2], "none") and st[3] == ("sumover", keys, want)
     chk.require(okst, "SHAPE-SEL", "_shape_selection/Static", "union over ALL addresses of the sub-shape re-extended by the same address", derived=show(st)[:300], expected="acc |= loop(inner.get_submap(addr), selection(addr)).extend(addr) for every addr", where=w)
     rs = Evaluator(prog, max_depth=0).eval_fn(ss, m)
